@@ -2,7 +2,7 @@
 # re-evaluate every seeded breakage against the checks; writes seeded/<id>/<v>/meta.json and seeded/summary.txt
 cd "$(dirname "$0")/.."
 : > seeded/summary.txt
-for d in seeded/C*/[ab]; do
+for d in seeded/C*/[a-z]; do
   p=$(basename $(dirname $d))
   extra=""
   [ "$d" = "seeded/C02/b" ] && extra="C02 C05"
